@@ -899,13 +899,11 @@ def run_case(case):
 
     # --- isolated replays (fresh instance each)
     iso = []
-    iso_rests = []
     iso_pe = []
     for who, c in enumerate(convs):
         inst = Inst(case)
         recs, rests = _run(run_alone(inst, who, c))
         iso.append(recs)
-        iso_rests.append(rests)
         iso_pe.append([e["altered"] for e in inst.log.items if e["kind"] == "pe"])
         for t, r in enumerate(rests):
             obs["rest_checks"] += 1
@@ -944,7 +942,6 @@ def run_case(case):
                 viol.append({"kind": "reply", "conv": who, "turn": len(out[who]), "shared": "conversation ended", "isolated": "continued"})
         # mechanism model 1: role-free ':'-join collisions, computed from the texts
         reqs = []
-        pos = [0] * n
         for who, t in served:
             rec = out[who][t]
             reqs.append((who, t, rec["request"], rec["reply"]))
